@@ -4,6 +4,7 @@
 //   fmt            line: hex(src) TAB width|- TAB lib|cli     -> OK <hex text> | REJECT | GLUEERR | EMPTY
 //   scan           line: hex(text)                            -> <n>:<hex c1>,<hex c2>,...
 //   fmtcase        line: hex(src)                             -> Coq term: statements ## number table | REJECT | GLUEERR
+//   stmtpos        line: hex(src)                             -> sl:el,sl:el,... (statement pair spans) | REJECT
 //   dump-parens    (oneshot) needs_parens_in_binop for every (parent op, child op, side)
 //
 // Drivers.  `lib` mirrors blots-wasm/src/lib.rs::format_blots line by line (the wasm crate is a
@@ -29,6 +30,7 @@ pub fn dispatch(sub: &str, _rest: &[String], line: &str) -> Option<String> {
         "fmt" => Some(fmt_line(line)),
         "scan" => Some(scan_line(line)),
         "fmtcase" => Some(fmtcase_line(line)),
+        "stmtpos" => Some(stmtpos_line(line)),
         _ => None,
     }
 }
@@ -276,6 +278,30 @@ fn fmtcase_line(line: &str) -> String {
     let table: Vec<String> =
         nums.iter().map(|(b, t)| format!("(0x{}, hx \"{}\")", b, hex(t.as_bytes()))).collect();
     format!("[{}] ## [{}]", stmts.join("; "), table.join("; "))
+}
+
+/// start/end line of every non-empty `statement` pair, as format_blots reads them
+fn stmtpos_line(line: &str) -> String {
+    let src = match text_of(line) {
+        Some(s) => s,
+        None => return "BADUTF8".into(),
+    };
+    let pairs = match get_pairs(&src) {
+        Ok(p) => p,
+        Err(_) => return "REJECT".into(),
+    };
+    let mut out: Vec<String> = Vec::new();
+    for pair in pairs {
+        if pair.as_rule() != Rule::statement {
+            continue;
+        }
+        let sl = pair.as_span().start_pos().line_col().0;
+        let el = pair.as_span().end_pos().line_col().0;
+        if pair.into_inner().next().is_some() {
+            out.push(format!("{}:{}", sl, el));
+        }
+    }
+    format!("POS {}", out.join(","))
 }
 
 // ------------------------------------------------------------------ needs_parens_in_binop table
